@@ -25,7 +25,7 @@ ASSUMPTIONS = ['refjs token extents (first token, operator token) for the same t
                'token-map entries of semicolons the lexer synthesised (observed through the C04 hook) are exempt']
 BUDGET_S = {'quick': 60, 'thorough': 700}
 REQUIRED_HITS = ['nodes_checked', 'token_map_entries_checked', 'operator_position', 'first_token_position']
-FLOOR = {'quick': 1500, 'thorough': 30000}
+FLOOR = {'quick': 1500, 'thorough': 12000}
 
 
 def pairs(node, r, path='$'):
